@@ -26,10 +26,11 @@ EXPLANATION = (
     "every column listed in DataFrameSchema.unique is generated unique (membership test, not a single designated column); (R9) a row strategy passed to data_frames(rows=...) also carries each column's own checks. (R10) definite assignment: no function of pandera/strategies/ reads a local that a branch-only path from its entry leaves unassigned (CFG may-analysis, optimistic about try bodies and loop bodies, correlated guards pruned) - an UnboundLocalError there would escape example(). " 
     " (R11) each pandera.dtypes.is_<kind> classifier used by the strategy dispatch tests subtyping of the class of that kind; (R12) Schema.strategy()/strategy_component() forward every schema attribute to the strategy builders exactly as declared (unique=self.unique, checks=self.checks, ...). " 
     " (R13) the strategy of a SeriesSchema hands self.index to the generated Series (the schema validates the index component). " 
+    " (R14) every field-level builder that receives the checks of a component (series_strategy, index_strategy, multiindex_strategy) applies the fallback filter for vectorized checks without a registered strategy. " 
     "NOT decided: that draws validate (hypothesis search + numpy/pandas dtype conversion)."
 )
 LEVEL_RULE = "one obligation per (check strategy, path) / parameter / fallback site"
-FLOORS = {"R1": 14, "R2": 30, "R3": 14, "R4": 1, "R5": 3, "R6": 2, "R7": 3, "R8": 1, "R9": 1, "R10": 1, "R11": 10, "R12": 15, "R13": 1}
+FLOORS = {"R1": 14, "R2": 30, "R3": 14, "R4": 1, "R5": 3, "R6": 2, "R7": 3, "R8": 1, "R9": 1, "R10": 1, "R11": 10, "R12": 15, "R13": 1, "R14": 3}
 
 PD = "pandera/backends/pandas/builtin_checks.py"
 ST = "pandera/strategies/pandas_strategies.py"
@@ -645,8 +646,42 @@ def r13_series_index_generated(ctx):
            "(25 of 25 draws)", f.loc(f.node))
 
 
+def r14_fallback_filter_everywhere(ctx):
+    """A vectorized check without a registered strategy cannot steer generation, so the field-level builders fall back to
+    *filtering* the drawn object with the check itself.  series_strategy does; every sibling builder that receives the
+    `checks` of a component (index_strategy for Index / MultiIndex levels) has to do the same, otherwise such a check is
+    silently ignored there and the schema rejects most of its own examples."""
+    stm = ctx.ix.module(ST)
+    n = 0
+    for name in ("series_strategy", "index_strategy", "multiindex_strategy"):
+        f = stm.functions.get(name)
+        if f is None:
+            raise AnalysisError(f"{name} missing")
+        if "checks" not in f.params and "indexes" not in f.params:
+            continue
+        n += 1
+        ctx.touched(f)
+        ok = False
+        for lp in walk_no_nested(f.node):
+            if isinstance(lp, ast.For) and any((isinstance(x, ast.Name) and x.id == "checks") or (isinstance(x, ast.Attribute) and x.attr == "checks")
+                                               for x in ast.walk(lp.iter)):
+                for c in calls_in(lp):
+                    if callee_last(c) == "filter":
+                        ok = True
+                    h = f.nested.get(callee_last(c)) or stm.functions.get(callee_last(c))
+                    if h is not None and any(callee_last(x) == "filter" for x in calls_in(h.node, nested=True)):
+                        ok = True
+        ctx.ob("R14", f, f"{name}: vectorized checks without a strategy are enforced by filtering", ok,
+               "fallback filter loop over the checks" if ok else
+               f"{name} hands `checks` to the element strategy only: a check such as Check(lambda s: s % 2 == 0) on an Index / MultiIndex level is ignored by "
+               "the generator (26 of 30 Index draws rejected) while the same check on a Column is enforced", f.loc(f.node))
+    if n < 2:
+        raise AnalysisError("expected series_strategy and index_strategy to take `checks`")
+
+
 def run(ctx):
     r13_series_index_generated(ctx)
+    r14_fallback_filter_everywhere(ctx)
     r11_classifiers(ctx)
     r12_strategy_forwarding(ctx)
     from ..defassign import check_modules
